@@ -1,5 +1,8 @@
 let families : (string * (string list -> string)) list = [
   "tlv", Fam_tlv.run;
+  "storage", Fam_storage.run;
+  "db", Fam_storage.run_db;
+  "crash", Fam_storage.run_crash;
 ]
 
 let () =
